@@ -38,7 +38,8 @@ def _cfg(tier):
                profile="falsy" if "falsy_values" not in avoid else "clean", max_depth=2,
                allow_nested_not="not_under_not" not in avoid, allow_empty_cond=True,
                select="any", desc=("entity", "set_of"), value_terms_in_select=True, force_relate=True,
-               dom_kinds=("list", "list", "tuple"), avoid=frozenset(avoid), kw_vars=(1, 6))
+               dom_kinds=("list", "list", "tuple"), avoid=frozenset(avoid), kw_vars=(1, 6),
+               extra_templates=("indep_and_or3", "indep_and_or3", "indep_and_join3", "indep_and_join3"))
 
 
 def strategy(tier):
